@@ -16,6 +16,7 @@ import RbV.Lemmas.SaisWidth
 import RbV.Gen.SaisWidth
 import RbV.Thm.GenSrcSus
 import RbV.Thm.GenSrcLcp
+import RbV.Thm.GenSrcTransform
 /-!
 # C03 — suffix array = sorted permutation of all suffixes; LCP; shortest unique substrings
 
@@ -618,5 +619,67 @@ example : (do let l ← Gen.SrcLcp.lcp [71, 67, 84, 71, 67, 84, 65, 36] [7, 6, 3
     = Rs.Res.ok [some 4, some 3, some 2, some 4, some 3, some 2, some 1, some 1] := by decide
 -- a first entry other than `n - 1`: `rank[p] - 1` underflows for the position of rank 0
 example : Gen.SrcLcp.lcp [1, 2, 0] [0, 2, 1] = Rs.Res.panic := by decide
+
+/-! ### translated text of `sentinel_count` and `transform_text` (`RbV/Gen/SrcTransform.lean`; builder gensa)
+
+`T` is read at a 64-bit unsigned type, `num_traits::cast::<usize, T>` as an abstract `castT` that is value-preserving below
+`alphabet.len() + sentinel_count` (hypothesis `hcast`; `sais_transform_width_fits` proves that bound for the type the width
+dispatch selects); `RankTransform::new` is the translated `Gen.SrcAlphabet.rankNew`.  The obligation is stated **modulo the
+freedom the property leaves** (`Transform.Ok`, `RbV/Lemmas/TransformSpec.lean`): which distinct ranks below all other symbols
+the sentinel occurrences get is not fixed, only that they are pairwise distinct and the final one is least. -/
+
+/-- translated `sentinel_count`: the `assert!` passes when no symbol is below the last one, the fold counts its occurrences -/
+theorem sentinel_count_source_eq_model (t : List Nat) (hne : t ≠ []) (hmin : ∀ a ∈ t, sentinelOf t ≤ a)
+    (hsz : t.length < 2 ^ 64) : Gen.SrcTransform.sentinel_count t = Rs.Res.ok (t.count (sentinelOf t)) :=
+  Thm.GenSrcTransform.sentinel_count_eq_model t hne hmin hsz
+
+/-- … and a text with a symbol below its last one is refused -/
+theorem sentinel_count_source_refuses (t : List Nat) (hne : t ≠ []) (a : Nat) (ha : a ∈ t) (hlt : a < sentinelOf t) :
+    Gen.SrcTransform.sentinel_count t = Rs.Res.panic :=
+  Thm.GenSrcTransform.sentinel_count_unsorted_panics t hne a ha hlt
+
+/-- **translated `transform_text` = the mirror model modulo the sentinel order**: on the alphabet of the text and its
+sentinel count it does not panic and returns a text `tt` of the same length in which every non-sentinel symbol is
+`rank + (sentinel_count − 1)` (as in `Transform.transformText`) and the sentinel occurrences carry pairwise distinct values
+below `sentinel_count`, the final one the least (`Transform.Ok`; the mirror model is the instance "decreasing from left to
+right": `Transform.ok_transformText`) -/
+theorem transform_text_source_eq_model (castT : Nat → Option Nat) (t : List Nat) (hne : t ≠ []) (hb : ∀ c ∈ t, c < 256)
+    (hsz : t.length + 256 < 2 ^ 64)
+    (hcast : ∀ x, x < (Alpha.mk t).length + t.count (sentinelOf t) → castT x = some x) :
+    ∃ tt, Gen.SrcTransform.transform_text castT t (Alpha.mk t) (t.count (sentinelOf t)) = Rs.Res.ok tt ∧ Transform.Ok t tt :=
+  Thm.GenSrcTransform.transform_text_spec castT t hne hb hsz hcast
+
+/-- **what `Sais::construct` and the property need of it** (the corollary `sais_transform_text` states for the mirror):
+the first three statements of `suffix_array` — translated `Alphabet::new`, `sentinel_count`, `transform_text` — hand SA-IS
+a text `tt` it accepts (`Sais.Valid`: last symbol the unique minimum, dense alphabet), and every sorted suffix permutation
+of `tt` is accepted by `checkSA` for the byte text -/
+theorem transform_text_source_feeds_sais (castT : Nat → Option Nat) (t : List Nat) (hne : t ≠ []) (hb : ∀ c ∈ t, c < 256)
+    (hmin : ∀ p, p < t.length → sentinelOf t ≤ t.getD p 0) (hsz : t.length + 256 < 2 ^ 64)
+    (hcast : ∀ x, x < (Alpha.mk t).length + t.count (sentinelOf t) → castT x = some x) :
+    ∃ tt, (do let alphabet ← Gen.SrcAlphabet.alphabetNew t
+              let sc ← Gen.SrcTransform.sentinel_count t
+              Gen.SrcTransform.transform_text castT t alphabet sc) = Rs.Res.ok tt ∧
+      Sais.Valid tt ∧ tt.length = t.length ∧ ∀ sa, SuffixSorted tt sa → checkSA t sa = true := by
+  obtain ⟨tt, h1, h2⟩ := Thm.GenSrcTransform.transform_text_spec castT t hne hb hsz hcast
+  have hmin' : ∀ a ∈ t, sentinelOf t ≤ a := by
+    intro a ha
+    obtain ⟨i, hi, he⟩ := Sais.exists_getD_of_mem t a ha
+    rw [← he]; exact hmin i hi
+  refine ⟨tt, ?_, h2.valid hne hmin, h2.len, fun sa hs => (checkSA_iff t sa hne).mpr (h2.isSA hne hmin sa hs)⟩
+  rw [Thm.GenSrcAlphabet.alphabetNew_eq_model t hb, Thm.GenSrcTransform.sentinel_count_eq_model t hne hmin' (by omega)]
+  exact h1
+
+-- `CA$` evaluated through the translated code (`cast` into `u8`); with one sentinel the sentinel order is forced (the
+-- evaluation of a multi-sentinel text, whose numbers depend on the order chosen, is in `Thm/GenSrcTransformModel.lean`)
+example : (do let alphabet ← Gen.SrcAlphabet.alphabetNew [67, 65, 36]
+              let sc ← Gen.SrcTransform.sentinel_count [67, 65, 36]
+              Gen.SrcTransform.transform_text (fun x => if x < 256 then some x else none) [67, 65, 36] alphabet sc)
+    = Rs.Res.ok [2, 1, 0] := by decide
+example : Transform.Ok [65, 36, 67, 36, 65, 36] [3, 2, 4, 1, 3, 0] := Transform.ok_transformText _ (by decide)
+example : Transform.Ok [65, 36, 67, 36, 65, 36] [3, 1, 4, 2, 3, 0] := Transform.ok_transformTextUp _ (by decide)
+-- a text whose last symbol is not its smallest is refused by the `assert!`; a cast that does not fit panics
+example : Gen.SrcTransform.sentinel_count [36, 65] = Rs.Res.panic := by decide
+example : Gen.SrcTransform.transform_text (fun x => if x < 2 then some x else none) [65, 67, 36] (Alpha.mk [65, 67, 36]) 1
+    = Rs.Res.panic := by decide
 
 end RbV.Thm.C03
